@@ -45,6 +45,10 @@ func (t *Transpose) Init(n *onnx.NodeProto) error {
 
 // Apply applies the transpose operator.
 func (t *Transpose) Apply(inputs []tensor.Tensor) ([]tensor.Tensor, error) {
+	if err := t.validatePerm(len(inputs[0].Shape())); err != nil {
+		return nil, err
+	}
+
 	out, err := tensor.Transpose(inputs[0], t.perm...)
 	if err != nil {
 		return nil, err
@@ -77,4 +81,28 @@ func (t *Transpose) GetInputTypeConstraints() [][]tensor.Dtype {
 // String implements the stringer interface, and can be used to format errors or messages.
 func (t *Transpose) String() string {
 	return "transpose operator"
+}
+
+// validatePerm checks that perm, when given, is a permutation of the axes of a tensor with the given rank.
+func (t *Transpose) validatePerm(rank int) error {
+	// Without perm the axes are reversed, which is always valid.
+	if len(t.perm) == 0 {
+		return nil
+	}
+
+	if len(t.perm) != rank {
+		return ops.ErrInvalidInput("perm must contain every axis of the input exactly once", t)
+	}
+
+	seen := make([]bool, rank)
+
+	for _, axis := range t.perm {
+		if axis < 0 || axis >= rank || seen[axis] {
+			return ops.ErrInvalidInput("perm must contain every axis of the input exactly once", t)
+		}
+
+		seen[axis] = true
+	}
+
+	return nil
 }
